@@ -12,7 +12,9 @@ theorem foldl_add_records (l : List (Nat × FeaSpec)) (b : FeaBuilder) :
     (l.foldl (fun b p => b.add p.1 p.2) b).records = b.records ++ l := by
   induction l generalizing b with
   | nil => simp
-  | cons p t ih => simp [List.foldl_cons, ih, FeaBuilder.add]
+  | cons p t ih =>
+    rw [List.foldl_cons, ih]
+    simp [FeaBuilder.add]
 
 theorem foldl_add_last (l : List (Nat × FeaSpec)) (b : FeaBuilder) :
     b.last ≤ (l.foldl (fun b p => b.add p.1 p.2) b).last ∧
@@ -73,7 +75,9 @@ theorem foldl_add_const_records (id : Nat) (l : List FeaSpec) (b : FeaBuilder) :
     (l.foldl (fun c e => c.add id e) b).records = b.records ++ l.map (fun e => (id, e)) := by
   induction l generalizing b with
   | nil => simp
-  | cons e t ih => simp [List.foldl_cons, ih, FeaBuilder.add]
+  | cons e t ih =>
+    rw [List.foldl_cons, ih]
+    simp [FeaBuilder.add]
 
 theorem addAnonGroup_id (b : FeaBuilder) (g : List FeaSpec) : (b.addAnonGroup g).2 = b.last + 1 := rfl
 
@@ -84,9 +88,9 @@ theorem addAnonGroup_records (b : FeaBuilder) (g : List FeaSpec) :
 theorem addAnonGroup_last (b : FeaBuilder) (g : List FeaSpec) :
     (b.addAnonGroup g).1.last = if nonEmptySpecs g = [] then b.last else b.last + 1 := by
   simp only [FeaBuilder.addAnonGroup, FeaBuilder.nextId, foldl_add_const_last, nonEmptySpecs]
-  split
-  · rfl
-  · omega
+  by_cases h : List.filter (fun e => !List.isEmpty e.str) g = []
+  · simp [h]
+  · simp only [h, if_false]; omega
 
 /-- the ids handed out depend on nothing but `last_nonreserved_id` -/
 theorem addGroups_ids_congr (groups : List (List FeaSpec)) (b b' : FeaBuilder) (h : b.last = b'.last) :
@@ -191,7 +195,8 @@ theorem alookup_foldl_ainsert (l : Table) (t : Table) (k : NameKey) :
 
 theorem alookup_reverse_of_nodup {l : Table} (hn : (akeys l).Nodup) (k : NameKey) : alookup k l.reverse = alookup k l := by
   have hn' : (akeys l.reverse).Nodup := by
-    simp only [akeys, List.map_reverse]; exact List.nodup_reverse.mpr hn
+    simp only [akeys, List.map_reverse]
+    exact List.pairwise_reverse.mpr (List.Pairwise.imp (fun h => Ne.symm h) hn)
   cases h : alookup k l with
   | none =>
     rw [alookup_eq_none_iff] at h ⊢
